@@ -44,7 +44,9 @@ def make(shape):
             if res[i]:
                 cx.prove("true_implies_member[%d]" % i, shape.member(cx, P, pts[i]))
             else:
-                cx.prove("false_implies_outside[%d]" % i, shape.not_member(cx, P, pts[i], "q%d" % i), tol=0.0)
+                # concrete reading: the statement's band - False is wrong only for a point at least 1e-9*L INSIDE (L >= 1); the point is
+                # given in local coordinates, the code sees it after a world round trip, so a boundary point may move by an ulp
+                cx.prove("false_implies_outside[%d]" % i, shape.not_member(cx, P, pts[i], "q%d" % i), tol=1e-9)
         cx.cover("end")
 
 
@@ -140,5 +142,5 @@ def _(cx):
         if res[i]:
             cx.prove("true_implies_member[%d]" % i, cx.le(l1, s), tol=1e-9)
         else:
-            cx.prove("false_implies_outside[%d]" % i, cx.gt(l1, s), tol=0.0)
+            cx.prove("false_implies_outside[%d]" % i, cx.gt(l1, s), tol=1e-9)
     cx.cover("end")
